@@ -17,7 +17,6 @@ values and the evidence branch of `ConstraintAD.add`.
 import itertools
 import sys
 
-import lib
 import spine
 
 MODULE = "ProbLogProofs.Properties.C06Propagate"
@@ -173,6 +172,13 @@ def oracle(nodes, ev, outcome, ad_groups=(), max_atoms=10):
     return []
 
 
+def satisfiable(rec, max_atoms):
+    """True iff the truth-table oracle finds a total assignment satisfying the evidence (None/[] otherwise)."""
+    if rec["cur0"]:
+        return False
+    return bool(oracle(rec["nodes"], rec["ev"], ("exc", "InconsistentEvidenceError"), max_atoms=max_atoms))
+
+
 # ------------------------------------------------------------------------------------------------ generators
 def gen_graph(rng, malformed=False):
     """and/or graph through the LogicFormula API: shared sub-DAGs, positive cycles through mutable disjunctions,
@@ -309,7 +315,7 @@ def check_propagate(ctx, drv=None, register_proofs=True):
         if err is not None:
             ctx.count("propagate:ground-exception:" + err)
             if not spine.is_problog_error(err):
-                ctx.fail("grounding with propagate_evidence=True raised %s" % err, {"src": src},
+                ctx.fail("grounding with propagate_evidence=True raised %s" % err, {"part": "propagate", "src": src},
                          {"kind": "exception", "exc": err, "where": "ground(propagate_evidence)"})
                 ok_all = False
             continue
@@ -324,7 +330,7 @@ def check_propagate(ctx, drv=None, register_proofs=True):
             probs = oracle(snapshot(lf), ev_nodes_of(lf), ("ok", final), ad_groups=groups, max_atoms=max_atoms)
             if probs:
                 ctx.fail("final lookup_evidence not implied by the evidence: %s" % probs[0],
-                         {"src": src, "lookup": [(k, spine.k2s(v)) for k, v in final]},
+                         {"part": "propagate", "src": src, "lookup": [(k, spine.k2s(v)) for k, v in final]},
                          {"kind": "unsound-propagation", "where": "lookup_evidence(final)"})
                 ok_all = False
         # evidence spelling: the other spelling gives the same evidence literals
@@ -380,7 +386,6 @@ def check_propagate(ctx, drv=None, register_proofs=True):
             ctx.sample({"kind": rec["kind"], "src": rec["src"], "store": rec["store"][:500], "ev": rec["ev"],
                         "result": r_outcome(rec["out"])[:300]})
     first_diff = None
-    order_dep = 0
     if drv is not None:
         outs = drv.run(lines)
         per = {}
@@ -400,8 +405,9 @@ def check_propagate(ctx, drv=None, register_proofs=True):
                 import re
                 alls = (head, set(canon(x) for x in re.findall(r"\((ok \((?:\([^()]*\)\s*)*\)|[A-Za-z]+)\)", body)))
                 if len(alls[1]) > 1:
-                    order_dep += 1
                     ctx.count("propagate:outcome depends on pop order (model, all orders)")
+                    if satisfiable(rec, max_atoms):
+                        ctx.count("propagate:outcome depends on pop order although the evidence is satisfiable")
                 if alls[0] == "complete" and canon(real) not in alls[1] and diff is None:
                     diff = ("real outcome not among the model's outcomes over all pop orders", sorted(alls[1]), canon(real))
             for tag in ("first", "last"):
@@ -412,6 +418,8 @@ def check_propagate(ctx, drv=None, register_proofs=True):
                             continue  # legitimately order dependent
                         if alls is None:
                             ctx.count("propagate:first/last order differs (large case, not enumerated)")
+                            if satisfiable(rec, max_atoms):
+                                ctx.count("propagate:outcome depends on pop order although the evidence is satisfiable")
                             if "replay" in got:
                                 continue
                         diff = ("model with pop order '%s'" % tag, mo, canon(real))
@@ -433,12 +441,13 @@ def check_propagate(ctx, drv=None, register_proofs=True):
             ctx.count("propagate:oracle checked")
     if spelling_diff:
         src, e1, e2 = spelling_diff
-        ctx.fail("evidence spellings give different evidence literals: %s vs %s" % (e1, e2), {"src": src},
+        ctx.fail("evidence spellings give different evidence literals: %s vs %s" % (e1, e2), {"part": "propagate", "src": src},
                  {"kind": "evidence-spelling"})
         ok_all = False
     if first_problem:
         probs, rec = first_problem
-        ctx.fail("propagate: %s" % probs[0], {"src": rec["src"], "store": rec["store"], "ev": rec["ev"],
+        ctx.fail("propagate: %s" % probs[0], {"part": "propagate", "src": rec["src"], "store": rec["store"], "ev": rec["ev"],
+                                              "nodes": [[k, list(c)] for k, c in rec["nodes"]],
                                               "result": r_outcome(rec["out"])},
                  {"kind": "unsound-propagation", "where": "propagate", "outcome": rec["out"][0] if rec["out"][0] == "ok" else rec["out"][1]})
         ok_all = False
@@ -504,3 +513,61 @@ def helpers_correspondence(ctx, drv, rng):
     ctx.obligation("correspondence: evValue / engineLookup / adAddEv = get_evidence_value / propagate_evidence lookup / "
                    "ConstraintAD.add on %d ops" % len(lines), not bad, "" if not bad else bad[0][0][:200])
     return not bad
+
+
+# ------------------------------------------------------------------------------------------------ replay
+def formula_from_nodes(nodes):
+    """Rebuild a LogicFormula with exactly the given node array ([kind, children] per node; atoms get weight 0.5)."""
+    from problog.formula import LogicFormula
+    f = LogicFormula(auto_compact=False)
+    for i, (kind, children) in enumerate(nodes):
+        if kind == "atom":
+            f.add_atom(i + 1, 0.5)
+        elif kind == "conj":
+            f._add(f._create_conj(tuple(children)), reuse=False)
+        else:
+            f._add(f._create_disj(tuple(children)), reuse=False)
+    return f
+
+
+def replay(ctx, obj):
+    """Rerun one failing case written by `check_propagate` (obj = the `replay` field). Reports through ctx.fail again if
+    the failure is still there; returns True if it was reproduced."""
+    from problog.program import PrologString
+    from problog.formula import LogicFormula
+    max_atoms = 14
+    if obj.get("nodes") is not None and obj.get("src") is None:
+        nodes = [(k, tuple(c)) for k, c in obj["nodes"]]
+        f = formula_from_nodes(nodes)
+        out, _ = observed_propagate(f, list(obj["ev"]))
+        probs = oracle(nodes, list(obj["ev"]), out, max_atoms=max_atoms)
+        if probs:
+            ctx.fail("propagate: %s" % probs[0], obj, {"kind": "unsound-propagation", "where": "propagate",
+                                                       "outcome": out[0] if out[0] == "ok" else out[1]})
+            return True
+        return False
+    if obj.get("src"):
+        with Hook() as h:
+            try:
+                lf = LogicFormula.create_from(PrologString(obj["src"]), propagate_evidence=True)
+            except Exception as e:
+                lf = None
+                if not spine.is_problog_error(type(e).__name__):
+                    ctx.fail("grounding with propagate_evidence=True raised %s" % type(e).__name__, obj,
+                             {"kind": "exception", "exc": type(e).__name__, "where": "ground(propagate_evidence)"})
+                    return True
+        for rec in h.calls:
+            probs = oracle(rec["nodes"], rec["ev"], rec["out"], max_atoms=max_atoms)
+            if probs:
+                ctx.fail("propagate: %s" % probs[0], obj, {"kind": "unsound-propagation", "where": "propagate",
+                                                           "outcome": rec["out"][0] if rec["out"][0] == "ok" else rec["out"][1]})
+                return True
+        if lf is not None and hasattr(lf, "lookup_evidence"):
+            groups = [sorted(c.nodes) for c in lf.constraints() if type(c).__name__ == "ConstraintAD"]
+            final = list(lf.lookup_evidence.items())
+            probs = oracle(snapshot(lf), ev_nodes_of(lf), ("ok", final), ad_groups=groups, max_atoms=max_atoms)
+            if probs:
+                ctx.fail("final lookup_evidence not implied by the evidence: %s" % probs[0], obj,
+                         {"kind": "unsound-propagation", "where": "lookup_evidence(final)"})
+                return True
+    return False
